@@ -101,7 +101,18 @@ func genCase(t *rapid.T) Case {
 		case 7, 8:
 			return Op{K: "r"}
 		case 9, 10, 11:
-			return Op{K: "n", N: min(1<<20, max(0, readnArg.Draw(t, "n")))}
+			op := Op{K: "n", N: min(1<<20, max(0, readnArg.Draw(t, "n")))}
+			// two destinations in five are windows scratch[F:F+N] of a larger array: elements in front of the window and
+			// spare capacity behind it (a little, or enough for a full buffer); lengths then lean towards the short ones
+			// (0 included), so that the buffer often holds more than the window is long
+			if w := rapid.IntRange(0, 4).Draw(t, "window"); w <= 1 {
+				op.F = rapid.IntRange(0, 3).Draw(t, "front")
+				op.B = rapid.OneOf(rapid.IntRange(0, 3), rapid.IntRange(0, cp+2)).Draw(t, "back")
+				if w == 0 {
+					op.N = rapid.OneOf(rapid.IntRange(0, 2), rapid.IntRange(0, cp+2)).Draw(t, "windowLen")
+				}
+			}
+			return op
 		case 12, 13:
 			return Op{K: "s", N: arg(-1, cp+2).Draw(t, "n")}
 		case 14:
